@@ -69,3 +69,17 @@ def queries():
 if _t0 is not None:
     META["assumptions"] = list(META.get("assumptions", [])) + list(getattr(_t0, "ASSUMPTIONS", []))
     META["mutants_tried"] = list(META.get("mutants_tried", [])) + list(getattr(_t0, "MUTANTS", []))
+
+
+# ---- cross-included by the main session: version-rollback protection of TLS_RSA key exchange (premaster version bytes =
+# the client's MAXIMUM offered version on both sides; anchors src/ssl/ssl_hs_server.c, ssl_hs_client.c) is decided by
+# the C03 queries server-do_rsa_decrypt and client-make_pms_rsa-*.
+_c15_queries = queries
+def queries():
+    qs = _c15_queries()
+    try:
+        import C03
+        qs = qs + [q for q in C03._base_queries() if q.name == "server-do_rsa_decrypt" or (q.name.startswith("client-make_pms_rsa") and q.tier == "quick")]
+    except Exception:
+        pass
+    return qs
